@@ -488,8 +488,16 @@ def check_C01(run):
                         "memory growth is not measured (the model bounds counts, not allocator behaviour)"]
 
 
+def bom_lookalikes(rng, run):
+    """sources whose first character is not the byte-order mark but could be mistaken for one: the first token has to
+    start at offset 0 and cover that character (C02), and a mark in front of it stays transparent (C17)"""
+    heads = ["\ufffe", "\ufffd", "\uffff", "\u200b", "\u2060", "\u00ef\u00bb\u00bf", "\ufffe\ufeff", "\ufeef", "\ufefe", "\ufff0", "\u180e", "\u00a0"]
+    tails = ["", "data a; x = 1; run;", "%let a=1;", "\n", "x", ";", "/* c */", "'s'", "%m(1)", "datalines;\n1\n;", "\ufeff", "\"", "&a"]
+    return [h + t for h in heads for t in tails]
+
+
 def check_C02(run):
-    lexer_check(run, "C02", O.c02, 3000, 80000, premise=({"wf": "true"}, "the buffer of the model run is not well-formed (premise of C02_accessors_succeed)"))
+    lexer_check(run, "C02", O.c02, 3000, 80000, extra_inputs=bom_lookalikes, premise=({"wf": "true"}, "the buffer of the model run is not well-formed (premise of C02_accessors_succeed)"))
     run.assumptions += ["C02_sorted_* are conditional on the debug-profile run returning (C01); first-token-after-BOM and single-EOF are tested by the oracle on every input, not proved",
                         "source length below 2^32 bytes"]
 
